@@ -283,8 +283,12 @@ def write_evidence(ctx, level, violations):
         "wall_s": round(time.time() - ctx.t0, 2),
         "violations": violations,
     }
-    os.makedirs(os.path.join(VERIF, "evidence"), exist_ok=True)
-    with open(os.path.join(VERIF, "evidence", ctx.pid + ".json"), "w") as f:
+    # evidence/ holds runs against /repo only; a run against a scratch worktree (VERIF_REPO=...)
+    # writes its evidence next to the other scratch files
+    evdir = os.path.join(VERIF, "evidence") if os.path.realpath(REPO) == os.path.realpath("/repo") \
+        else os.path.join(VERIF, ".work", "evidence_other_repo")
+    os.makedirs(evdir, exist_ok=True)
+    with open(os.path.join(evdir, ctx.pid + ".json"), "w") as f:
         json.dump(ev, f, indent=1, default=str)
 
 
